@@ -8,6 +8,7 @@ package primsim
 
 import (
 	"fmt"
+	"os"
 	"sync"
 	"testing/synctest"
 
@@ -49,6 +50,7 @@ type Sched struct {
 	stamp    int64
 	SiteHits map[string]int64
 	Stuck    bool // step budget exhausted with runnable tasks left
+	Debug bool
 	// Finer-grain filter: which sites are live this run (nil = all).
 	Live func(site string) bool
 }
@@ -214,7 +216,7 @@ func (s *Sched) Run(afterStep func()) (blocked []int) {
 			if pick == nil {
 				pick = runnable[0]
 			}
-		} else if s.Depth > 0 {
+		} else if s.Depth > 0 && s.Steps < 600 {
 			pick = runnable[0]
 			for _, t := range runnable {
 				if t.prio > pick.prio {
@@ -238,6 +240,9 @@ func (s *Sched) Run(afterStep func()) (blocked []int) {
 				s.Switches++
 			}
 			s.last = pick.id
+		}
+		if s.Debug {
+			fmt.Fprintf(os.Stderr, "step %d: task %d at %s (stamp %d)\n", s.Steps, pick.id, pick.site, s.stamp)
 		}
 		pick.wake <- struct{}{}
 	}
